@@ -9,7 +9,7 @@ import SqlProofs.Lex.Quoted
 current position (or a one-character Error token where no rule matches).  `lexLoop_scan` shows the loop returns such a chain for every
 table whose rules have minimal width ≥ 1 and yield tokens.  Consequences proved here:
 * every token that is not of a Whitespace type starts with a character that is not `str.isspace` (`lex_nonws_first`);
-* the set of scan positions (`Boundary`) and the token at each of them (`lex_emits`).
+* the set of scan positions (`ScanBoundary`) and the token at each of them (`lex_emits`).
 -/
 namespace Sql
 
@@ -231,9 +231,9 @@ def scanNext (cfg : LexCfg) (E : Env) (p : Nat) : Nat :=
   | some (_, e) => e
 
 /-- the positions at which the scan loop of `lex` performs a step: 0, and the end of the token emitted at a scan position -/
-inductive Boundary (cfg : LexCfg) (E : Env) : Nat → Prop
-  | zero : Boundary cfg E 0
-  | next (p : Nat) : Boundary cfg E p → p < E.s.size → Boundary cfg E (scanNext cfg E p)
+inductive ScanBoundary (cfg : LexCfg) (E : Env) : Nat → Prop
+  | zero : ScanBoundary cfg E 0
+  | next (p : Nat) : ScanBoundary cfg E p → p < E.s.size → ScanBoundary cfg E (scanNext cfg E p)
 
 /-- text length of a token list -/
 def textLen (ts : List Tok) : Nat := ((ts.map (·.val)).flatten).length
@@ -251,7 +251,7 @@ theorem extract_length (E : Env) (p e : Nat) (h1 : p ≤ e) (h2 : e ≤ E.s.size
 /-- at every scan position the token list splits into the tokens before it (spelling exactly the first `p` characters)
 and a scan chain from `p` -/
 theorem scan_at_boundary (cfg : LexCfg) (E : Env) (ts : List Tok) (h0 : Scan cfg E 0 ts) (p : Nat)
-    (hb : Boundary cfg E p) : ∃ before rest, ts = before ++ rest ∧ textLen before = p ∧ Scan cfg E p rest := by
+    (hb : ScanBoundary cfg E p) : ∃ before rest, ts = before ++ rest ∧ textLen before = p ∧ Scan cfg E p rest := by
   induction hb with
   | zero => exact ⟨[], ts, rfl, rfl, h0⟩
   | next p _ hlt ih =>
@@ -270,8 +270,8 @@ theorem scan_at_boundary (cfg : LexCfg) (E : Env) (ts : List Tok) (h0 : Scan cfg
       · simpa [scanNext, hfm] using hs'
 
 /-- conversely, every token of the chain starts at a scan position -/
-theorem boundary_of_scan (cfg : LexCfg) (E : Env) : ∀ (q : Nat) (ts : List Tok), Scan cfg E q ts → Boundary cfg E q →
-    ∀ before after, ts = before ++ after → Boundary cfg E (q + textLen before) := by
+theorem boundary_of_scan (cfg : LexCfg) (E : Env) : ∀ (q : Nat) (ts : List Tok), Scan cfg E q ts → ScanBoundary cfg E q →
+    ∀ before after, ts = before ++ after → ScanBoundary cfg E (q + textLen before) := by
   intro q ts h
   induction h with
   | done p _ =>
@@ -289,7 +289,7 @@ theorem boundary_of_scan (cfg : LexCfg) (E : Env) : ∀ (q : Nat) (ts : List Tok
       simp only [List.cons_append, List.cons.injEq] at hts
       obtain ⟨rfl, hts'⟩ := hts
       have hlt : p < E.s.size := (Array.getElem?_eq_some_iff.mp hc).1
-      have hb' := Boundary.next p hb hlt
+      have hb' := ScanBoundary.next p hb hlt
       simp only [scanNext, hfm] at hb'
       have := ih hb' b after hts'
       rw [textLen_cons]
@@ -301,7 +301,7 @@ theorem boundary_of_scan (cfg : LexCfg) (E : Env) : ∀ (q : Nat) (ts : List Tok
     | cons a b =>
       simp only [List.cons_append, List.cons.injEq] at hts
       obtain ⟨rfl, hts'⟩ := hts
-      have hb' := Boundary.next p hb (by omega)
+      have hb' := ScanBoundary.next p hb (by omega)
       simp only [scanNext, hfm] at hb'
       have := ih hb' b after hts'
       rw [textLen_cons]
@@ -310,7 +310,7 @@ theorem boundary_of_scan (cfg : LexCfg) (E : Env) : ∀ (q : Nat) (ts : List Tok
       have he : p + (e - p + textLen b) = e + textLen b := by omega
       rw [he]; exact this
 
-theorem boundary_le_size (cfg : LexCfg) (E : Env) (hok : RulesOK cfg.rules = true) (p : Nat) (hb : Boundary cfg E p) :
+theorem boundary_le_size (cfg : LexCfg) (E : Env) (hok : RulesOK cfg.rules = true) (p : Nat) (hb : ScanBoundary cfg E p) :
     p ≤ E.s.size := by
   induction hb with
   | zero => omega
@@ -325,11 +325,11 @@ theorem boundary_le_size (cfg : LexCfg) (E : Env) (hok : RulesOK cfg.rules = tru
 `(act, e)`, then the token list contains the token with value `s[p..e)` — of type `ty` for a rule action `ty`, of type
 `is_keyword(value)` for `PROCESS_AS_KEYWORD` — right after tokens spelling `s[0..p)`, and `e` is again a scan position. -/
 theorem lex_emits_act (s : Array Cp) (p : Nat) (act : Action) (e : Nat)
-    (hb : Boundary defaultCfg (defaultCfg.env s) p)
+    (hb : ScanBoundary defaultCfg (defaultCfg.env s) p)
     (hfm : firstMatch (defaultCfg.env s) defaultCfg.rules p = some (act, e)) :
     ∃ ts before after, lex defaultCfg s = .ok ts ∧
       ts = before ++ ⟨tokType defaultCfg act (s.extract p e).toList, (s.extract p e).toList⟩ :: after ∧
-      textLen before = p ∧ Boundary defaultCfg (defaultCfg.env s) e := by
+      textLen before = p ∧ ScanBoundary defaultCfg (defaultCfg.env s) e := by
   obtain ⟨ts, hlex, hscan⟩ := lex_scan defaultCfg defaultRulesOK s
   obtain ⟨before, rest, hts, hlen, hsc⟩ := scan_at_boundary _ _ ts hscan p hb
   cases hsc with
@@ -343,14 +343,14 @@ theorem lex_emits_act (s : Array Cp) (p : Nat) (act : Action) (e : Nat)
     simp only [Option.some.injEq, Prod.mk.injEq] at hfm'
     obtain ⟨rfl, rfl⟩ := hfm'
     refine ⟨ts, before, ts', hlex, hts, hlen, ?_⟩
-    have := Boundary.next p hb (by omega)
+    have := ScanBoundary.next p hb (by omega)
     simpa [scanNext, hfm] using this
 
 theorem lex_emits (s : Array Cp) (p : Nat) (ty : TType) (e : Nat)
-    (hb : Boundary defaultCfg (defaultCfg.env s) p)
+    (hb : ScanBoundary defaultCfg (defaultCfg.env s) p)
     (hfm : firstMatch (defaultCfg.env s) defaultCfg.rules p = some (.tok ty, e)) :
     ∃ ts before after, lex defaultCfg s = .ok ts ∧ ts = before ++ ⟨ty, (s.extract p e).toList⟩ :: after ∧
-      textLen before = p ∧ Boundary defaultCfg (defaultCfg.env s) e :=
+      textLen before = p ∧ ScanBoundary defaultCfg (defaultCfg.env s) e :=
   lex_emits_act s p (.tok ty) e hb hfm
 
 theorem extract_region (s : Array Cp) (pre mid rest : List Cp) (p : Nat) (h : s.toList = pre ++ mid ++ rest)
@@ -360,23 +360,23 @@ theorem extract_region (s : Array Cp) (pre mid rest : List Cp) (p : Nat) (h : s.
 
 /-- scan positions are exactly the offsets at which tokens of the output start (and the end of the text) -/
 theorem boundary_iff_offset (s : Array Cp) (ts : List Tok) (h : lex defaultCfg s = .ok ts) (p : Nat) :
-    Boundary defaultCfg (defaultCfg.env s) p ↔ ∃ before after, ts = before ++ after ∧ textLen before = p := by
+    ScanBoundary defaultCfg (defaultCfg.env s) p ↔ ∃ before after, ts = before ++ after ∧ textLen before = p := by
   have hscan := lex_default_scan s ts h
   constructor
   · intro hb
     obtain ⟨before, rest, hts, hlen, _⟩ := scan_at_boundary _ _ ts hscan p hb
     exact ⟨before, rest, hts, hlen⟩
   · rintro ⟨before, after, hts, hlen⟩
-    have := boundary_of_scan _ _ 0 ts hscan Boundary.zero before after hts
+    have := boundary_of_scan _ _ 0 ts hscan ScanBoundary.zero before after hts
     rw [← hlen]; simpa using this
 
 /-- a region theorem at a scan position, read on the output of `lex`: the region is one token of the output, at its offset -/
 theorem region_in_lex (s : Array Cp) (p : Nat) (pre region rest : List Cp) (ty : TType)
     (h : s.toList = pre ++ region ++ rest) (hp : pre.length = p)
-    (hb : Boundary defaultCfg (defaultCfg.env s) p)
+    (hb : ScanBoundary defaultCfg (defaultCfg.env s) p)
     (hfm : firstMatch (defaultCfg.env s) defaultCfg.rules p = some (.tok ty, p + region.length)) :
     ∃ ts before after, lex defaultCfg s = .ok ts ∧ ts = before ++ ⟨ty, region⟩ :: after ∧
-      textLen before = p ∧ Boundary defaultCfg (defaultCfg.env s) (p + region.length) := by
+      textLen before = p ∧ ScanBoundary defaultCfg (defaultCfg.env s) (p + region.length) := by
   obtain ⟨ts, before, after, h1, h2, h3, h4⟩ := lex_emits s p ty _ hb hfm
   rw [extract_region s pre region rest p h hp] at h2
   exact ⟨ts, before, after, h1, h2, h3, h4⟩
